@@ -268,19 +268,19 @@ CHECKS = {
     ),
     "C16": dict(
         category="proof",
-        text=("Lean theorems (Edn.Properties.C16), for every schedule of failing allocation requests: the collection builder (8 in-frame slots, growth by "
-              "half, permanent copy at finish) ends in a failed add, NULL, or a heap array holding exactly the elements added in order - never its in-frame "
-              "storage, never a partial array, and NULL only for an empty collection or after a failed request; duplicate detection gives the same, exact "
-              "verdict whichever of its scratch allocations fail (hash table -> sorted -> pairwise); a refused arena request leaves the arena unchanged. "
-              "Tied to the code by builder lives under all schedules of length <=5 (7 thorough) x 5 initial capacities x 13 element counts and duplicate "
-              "checks of 2..1400 elements under the four failure combinations, through library (static functions called in the unity build with the "
-              "allocators macro-wrapped) and model. Whole-reader part is monitoring, not proof: with malloc/calloc/realloc/free/edn_arena_alloc wrapped at "
-              "link time, for every document of a corpus covering every reader, growth path, lazy materialisation and error path, every request index k (arena requests and the mallocs made inside the arena's slow path alike; every raw malloc/calloc/realloc always, the rest sampled in the quick tier) is "
-              "failed alone and from k on; the call must return the complete fault-free tree (lazily materialised payloads possibly unavailable) or NULL "
-              "plus an error, leave no live block, and raise no ASan report (stack-use-after-return detection on)."),
+        text=("Lean theorems (Edn.Properties.C16) over the allocation-aware reader model Edn.Model.ReaderA - every logical allocation request the library makes while reading (each edn_arena_alloc call, each "
+              "direct malloc / calloc / realloc, the mallocs of edn_arena_create), in the order the C code makes it, answered by an arbitrary fault oracle, with the code's reaction to each refusal - for EVERY oracle (every single "
+              "failure, every from-k-on failure, every other schedule): with no refused request the allocation-aware reader is exactly the reader of the other properties (refinement); under any schedule a returned value is the "
+              "fault-free value up to hash-cache cells with the same handler-call log, the end-of-input value appears only where the fault-free read gives it, and everything else is an error - never a different or partial tree; "
+              "an accessor materialising a lazy payload returns the complete payload or NULL. The first proof attempt failed with two counterexamples that were genuine defects of the code (a refused lazy decode inside the duplicate check made "
+              "equality compare raw text: a set of two equal strings was returned) - repaired by fix: commits, after which the theorem holds unconditionally. Also, as before, for every schedule: the collection builder ends in a failed add, NULL, or a "
+              "heap array holding exactly the elements added - never its in-frame storage; the duplicate verdict is independent of which scratch allocations fail. The model is tied to the code by the H stream: for every "
+              "document of the fault corpus (every reader, growth path, lazy materialisation and error path; four configurations) and every request index k, alone and from k on (all k for documents up to 5 kB, sampled above), harness and "
+              "model print the same outcome, request count, live-block count, arena state and event trace; traces are also replayed against an independent ledger. Monitoring for what the model cannot exhibit (the compiled code returns normally, "
+              "touches no dead stack or freed memory, leaks nothing): every raw allocation call of every corpus document failed alone and from there on under ASan with stack-use-after-return detection and a live-block ledger."),
         design_ref="DESIGN.md section 6, C16",
-        note=NOTE_COMMON + " Partial: the reader model has no allocation parameter, so the whole-reader statement is decided only on the enumerated (document, k, mode) triples.",
-        technique="Lean 4 proof (builder invariant over arbitrary schedules; strategy-independence of the duplicate verdict) + correspondence check + exhaustive single/suffix fault enumeration under ASan",
+        note=NOTE_COMMON + " Partial: that the C code makes exactly the requests of the model and reacts as the model says is observed by the H correspondence on the enumerated (document, k, mode) triples, not proved; tag handlers must not inspect hash-cache cells (hypothesis of the fault theorem, shown necessary).",
+        technique="Lean 4 proof (simulation between the allocation-aware and the plain reader by induction on fuel, for every fault oracle; builder / duplicate-strategy invariants) + event-trace correspondence on every fault point + fault enumeration under ASan",
     ),
     "C17": dict(
         category="proof",
